@@ -141,6 +141,24 @@ func isPkgSel(info *types.Info, e ast.Expr, pkg, name string) bool {
 	return ok && pn.Imported().Path() == pkg
 }
 
+// isPkgFunc reports a call target of the form <pkg>.<Func> for the given import path.
+func isPkgFunc(info *types.Info, e ast.Expr, pkg string) bool {
+	sel, ok := e.(*ast.SelectorExpr)
+	if !ok {
+		return false
+	}
+	id, ok := sel.X.(*ast.Ident)
+	if !ok {
+		return false
+	}
+	pn, ok := info.Uses[id].(*types.PkgName)
+	if !ok || pn.Imported().Path() != pkg {
+		return false
+	}
+	_, isFunc := info.Uses[sel.Sel].(*types.Func)
+	return isFunc
+}
+
 func simSel(name string) ast.Expr {
 	return &ast.SelectorExpr{X: ast.NewIdent("simrt"), Sel: ast.NewIdent(name)}
 }
@@ -611,6 +629,18 @@ func rewriteFile(l *loader, pi *pkgInfo, f *ast.File) {
 					x.Fun = simSel("Now")
 				case isPkgSel(info, x.Fun, "time", "Since"):
 					x.Fun = simSel("Since")
+				case isPkgFunc(info, x.Fun, "math/rand"), isPkgFunc(info, x.Fun, "math/rand/v2"):
+					// the process-wide generator is seeded by the runtime: make it the simulator's
+					sel := x.Fun.(*ast.SelectorExpr)
+					switch sel.Sel.Name {
+					case "New", "NewSource", "NewZipf", "NewPCG", "NewChaCha8", "Seed", "N":
+					default:
+						src := "Rand"
+						if isPkgFunc(info, x.Fun, "math/rand/v2") {
+							src = "RandV2"
+						}
+						x.Fun = &ast.SelectorExpr{X: &ast.CallExpr{Fun: simSel(src)}, Sel: ast.NewIdent(sel.Sel.Name)}
+					}
 				case isPkgSel(info, x.Fun, "maps", "Keys"), isPkgSel(info, x.Fun, "maps", "Values"), isPkgSel(info, x.Fun, "maps", "All"):
 					if len(x.Args) == 1 {
 						if tv, ok := info.Types[x.Args[0]]; ok {
